@@ -63,7 +63,7 @@ class R:
         return (f"{op} {self.name} {self.strat} {self.retry} {self.minreq} {self.interval} {self.bc} {self.maxrt} "
                 f"{fb(self.thr)} {self.probe} {fb(self.pe)} {self.active}")
 
-    def invalid_loadres(self, rng):
+    def invalid_loadres(self, rng, op="loadres"):
         """a per-resource load of an invalid rule: reported as an error, the rule in force stays (C13 outlier-invalid-keeps-old)"""
         k = rng.choice(["pe", "retry", "interval", "thr"])
         pe, retry, interval, thr = self.pe, self.retry, self.interval, self.thr
@@ -75,7 +75,7 @@ class R:
             interval = 0
         else:
             thr = -1.0
-        return (f"loadres {self.name} {self.strat} {retry} {self.minreq} {interval} {self.bc} {self.maxrt} "
+        return (f"{op} {self.name} {self.strat} {retry} {self.minreq} {interval} {self.bc} {self.maxrt} "
                 f"{fb(thr)} {self.probe} {fb(pe)} {self.active}")
 
     def change_cb(self, rng):
@@ -149,13 +149,18 @@ def gen_recycle_scenario(rng, cid):
             now += rt
             ops.append(o)
     ops.append("probe r")                      # the outliers are handed to the recycler here
-    kind = rng.choice(["cb", "cb", "cb", "same", "pe", "active", "none"])
+    kind = rng.choice(["cb", "cb", "cb", "same", "pe", "active", "none", "drop"])
     if kind == "cb":
         ru.change_cb(rng)
     elif kind == "pe":
         ru.pe = pick_percent(rng, nn)
     elif kind == "active":
         ru.active = 1 - ru.active
+    elif kind == "drop":
+        # the rule is dropped (bulk set without it / per-resource clear / invalid bulk rule) and loaded again: nodes forgotten
+        ops.append(rng.choice(["unload r", "unload r", "clearres r", ru.invalid_loadres(rng, op="load")]))
+        if rng.random() < 0.5:
+            ops.append("probe r")
     if kind != "none":
         ops.append(ru.load(rng))
     if rng.random() < 0.5:
@@ -176,6 +181,11 @@ def gen_recycle_scenario(rng, cid):
             o, rt = gen_call(rng, ru, a, True)
             now += rt
             ops.append(o)
+    # active recovery: checks that keep failing (or succeed) after the real traffic went through, then a quiet period
+    if ru.active and not (ru.strat == 0 and ru.maxrt == 0):
+        for a in dead:
+            if rng.random() < 0.6:
+                ops.append(f"check r {a} {rng.choice(['fail', 'fail', 'ok'])}")
     if rng.random() < 0.3:
         ops.append("probe r")
     for a in rng.sample(addrs, len(addrs)):
@@ -240,27 +250,35 @@ def gen_case(rng, cid, known_region=False):
             o, rt = gen_call(rng, cur, a, rng.random() < prof[a])
             now += rt
             ops.append(o)
-        elif r < 0.84:
+        elif r < 0.83:
             ops.append(f"probe {res}")
+        elif r < 0.84:
+            ops.append("rules")                         # outlier.GetRules(): the rules in force
         elif r < 0.90 and sn:
             ops.append(f"recycle {res} {rng.choice(sn)}")
         elif r < 0.93 and sn and cur.active:
-            ops.append(f"retry {res} {rng.choice(sn)} {rng.choice([0, 1, cur.maxrt + 1])}")
+            # the retryer's timer callback: scripted check result (connectNode), or onConnected with a given rt
+            if rng.random() < 0.6 and not (cur.strat == 0 and cur.maxrt == 0):
+                ops.append(f"check {res} {rng.choice(sn)} {rng.choice(['ok', 'fail', 'fail'])}")
+            else:
+                ops.append(f"retry {res} {rng.choice(sn)} {rng.choice([0, 1, cur.maxrt + 1])}")
         elif r < 0.99 and not known_region:
             # reload in the middle of the history
             k = rng.random()
             if k < 0.08:
                 ops.append(cur.invalid_loadres(rng))    # rejected: the old rule stays in force
                 continue
-            if k < 0.16:
-                ops.append(f"clearres {res}")           # rule and node breakers dropped, then loaded again
+            if k < 0.20:
+                # the resource loses its rule and its node breakers — per-resource clear, a bulk load that omits it, or a
+                # bulk load whose rule for it is invalid — then is loaded again (either path)
+                ops.append(rng.choice([f"clearres {res}", f"unload {res}", f"unload {res}", cur.invalid_loadres(rng, op="load")]))
                 if rng.random() < 0.5:
                     ops.append(f"probe {res}")
                 if rng.random() < 0.5:
                     cur.pe = pick_percent(rng, nn)
-            elif k < 0.28:
+            elif k < 0.30:
                 pass                                    # identical
-            elif k < 0.48:
+            elif k < 0.50:
                 cur.active = 1 - cur.active
             elif k < 0.68:
                 cur.pe = rng.choice([pick_percent(rng, nn), 0.0, 0.25, 1.0])
@@ -301,7 +319,7 @@ def densify(ops, rng):
     out = []
     for o in ops:
         out.append(o)
-        if rng.random() < 0.4 and o.split()[0] in ("call", "probe", "recycle", "retry", "load", "loadres"):
+        if rng.random() < 0.4 and o.split()[0] in ("call", "probe", "recycle", "retry", "check", "load", "loadres") and o.split()[1] in ("r", "s"):
             out.append("probe " + o.split()[1])
     return out
 
@@ -320,6 +338,9 @@ def nontrivial(case, impl):
             DIST["loads via LoadRuleOfResource"] += t[0] == "loadres"
             DIST["loads via LoadRuleOfResource rejected (invalid)"] += r == "err"
             if r != "ok":
+                if r == "invalid":
+                    DIST["rule dropped (clearres / unload / invalid bulk rule)"] += 1
+                    loads.pop(t[1], None)
                 continue
             old = loads.get(t[1])
             if old is not None:
@@ -329,9 +350,12 @@ def nontrivial(case, impl):
                 DIST["reloads changing only percent/active"] += (old[2:10] == t[2:10] and old[10:] != t[10:])
                 DIST["reloads changing only percent/active, per-resource path"] += (old[2:10] == t[2:10] and old[10:] != t[10:] and t[0] == "loadres")
             loads[t[1]] = t
-        if op.startswith("clearres "):
-            DIST["clearres ops"] += 1
+        if op.startswith("clearres ") or op.startswith("unload "):
+            DIST["rule dropped (clearres / unload / invalid bulk rule)"] += 1
             loads.pop(op.split()[1], None)
+        if op.startswith("check "):
+            DIST["retryer checks (connectNode)"] += 1
+            DIST["retryer checks failing"] += op.endswith(" fail")
         if op.startswith("recycle "):
             DIST["recycle ops"] += 1
         if not (op.startswith("call ") or op.startswith("probe ")):
